@@ -322,14 +322,7 @@ func RunC16(d *Driver) *Report {
 	}
 	// literals of different types whose printed forms coincide (a constant pool must keep them apart), and
 	// literals equal to the hidden constants of loops
-	for _, src := range []string{
-		"a := 2\nb := \"2\"\nc := 2\nd := \"2\"\na = a\nb = b\nc = c\nd = d\n",
-		"a := \"7\"\nb := 7\ns := a + \"x\"\nn := b + 1\ns = s\nn = n\n",
-		"t := true\ns := \"true\"\nf := \"false\"\ng := false\nt = t\ns = s\nf = f\ng = g\n",
-		"z := \"0\"\none := \"1\"\nx := 0\nfor i := range 3\n    x = x + i\nend\nfor c := range \"ab\"\n    z = z + c\nend\nfor e := range [5 6]\n    x = x + e\nend\nz = z\none = one\nx = x\n",
-		"a := [1 2]\nb := \"[1 2]\"\nc := 1.5\nd := \"1.5\"\na = a\nb = b\nc = c\nd = d\n",
-		"e := \"\"\nf := \" \"\ng := 0\nh := \"0\"\ne = e + h\nf = f\ng = g + 0\n",
-	} {
+	for _, src := range c16LiteralPrograms() {
 		c16Diff(r, src, "differential-literals", known)
 	}
 	// run-time errors and comparisons the generator rarely reaches: both engines must fail alike (or leave the same globals)
@@ -512,4 +505,25 @@ func c16Aliasing() []string {
 	// nested arrays: sharing of inner arrays
 	out = append(out, "i := [1 2]\nn := [i i]\ni[0] = 5\nm := n + [[3]]\nn[1][1] = 6\ni = i\nn = n\nm = m\n")
 	return out
+}
+
+// c16LiteralPrograms: literals of different types whose printed forms coincide, and literals equal to the hidden
+// constants of loops (the iteration index 0, the step 1).
+func c16LiteralPrograms() []string {
+	return []string{
+		"a := 2\nb := \"2\"\nc := 2\nd := \"2\"\na = a\nb = b\nc = c\nd = d\n",
+		"a := \"7\"\nb := 7\ns := a + \"x\"\nn := b + 1\ns = s\nn = n\n",
+		"t := true\ns := \"true\"\nf := \"false\"\ng := false\nt = t\ns = s\nf = f\ng = g\n",
+		"z := \"0\"\none := \"1\"\nx := 0\nfor i := range 3\n    x = x + i\nend\nfor c := range \"ab\"\n    z = z + c\nend\nfor e := range [5 6]\n    x = x + e\nend\nz = z\none = one\nx = x\n",
+		"a := [1 2]\nb := \"[1 2]\"\nc := 1.5\nd := \"1.5\"\na = a\nb = b\nc = c\nd = d\n",
+		"e := \"\"\nf := \" \"\ng := 0\nh := \"0\"\ne = e + h\nf = f\ng = g + 0\n",
+		"s := \"1\"\nn := 1 + 2\ns = s\nn = n\n",
+		"n := 1 + 2\ns := \"1\" + \"2\"\ns = s\nn = n\n",
+		"z := \"0\"\nx := 0\nfor e := range [5 6]\n    x = x + e\nend\nz = z\nx = x\n",
+		"z := \"0\"\nx := \"\"\nfor c := range \"ab\"\n    x = x + c\nend\nz = z\nx = x\n",
+		"z := \"0\"\nx := \"\"\nm := {a:1 b:2}\nfor k := range m\n    x = x + k\nend\nz = z\nx = x\n",
+		"z := \"1\"\nx := 0\nfor i := range 3\n    x = x + i\nend\nz = z\nx = x\n",
+		"m := {a:1}\nk := \"a\"\nx := m[k] + m.a\nm.a = 5\nx = x + m[\"a\"]\nx = x\n",
+		"t := \"true\"\nx := 0\nif true\n    x = 1\nend\nwhile x < 2\n    x = x + 1\nend\nt = t\nx = x\n",
+	}
 }
